@@ -27,7 +27,14 @@ def make_items(n, idpat, prefix, n_ins=0, alias_style="plain", all_derived=False
         alias = "%s_%c" % (prefix, chr(97 + i))
         if alias_style == "numeric" and n >= 2:
             alias = str(ids[(i + 1) % n])
-        svid = "%04d" % (ids[i] + 20) if sv_style == "pad" else str(i + 1)   # "dec": as in real MR-insertion payloads
+        # "dec": as in real MR-insertion payloads: real sub-variables numbered "1","2",.. among themselves (so the
+        # decimal strings are SHIFTED against the renumbered element ids), inserted ones carry their name
+        if sv_style == "pad":
+            svid = "%04d" % (ids[i] + 20)
+        elif i < n_ins:
+            svid = "%s ins %d" % (prefix, i)
+        else:
+            svid = str(i - n_ins + 1)
         items.append({"id": ids[i], "alias": alias, "subvar_id": svid,
                       "name": "%s item %d" % (prefix, i), "anchor": i < n_ins, "derived": all_derived or i < n_ins})
     return items
@@ -61,10 +68,13 @@ def build(case):
     layout, n, idpat = case["layout"], case["n"], case["idpat"]
 
     def cat(alias, k=None):
+        if case.get("ncat"):        # enough rows for sorts by different items to differ
+            return gen.gen_var(rng, "cat", alias, n=k or case["ncat"], allow_missing=False)
         return gen.gen_var(rng, "cat", alias, n=k or rng.randint(2, 4), allow_missing=True, min_valid=2)
 
     def arr(kind, alias, n_ins=0):
-        items = make_items(n, idpat, alias, n_ins)
+        items = make_items(n, idpat, alias, n_ins, sv_style=case.get("sv", "pad") if n_ins else "pad",
+                           all_derived=bool(case.get("all_derived")) and bool(n_ins))
         v = gen.Var(kind, alias, cats=copy.deepcopy(gen.MR_CATS) if kind == "mr" else gen.gen_cats(rng, 3, True, "some", 2),
                     items=[{"id": it["id"], "alias": it["alias"], "subvar_id": it["subvar_id"], "name": it["name"]}
                            for it in items])
@@ -190,10 +200,12 @@ def plan(case, built):
             "direction": rng.choice(["ascending", "descending"]), "insertion": insertion}
 
 
-def transforms_for(case, built, pl, cls, stale):
+def transforms_for(case, built, pl, cls, stale, resolver=None):
+    """the case's transform with every item reference written in spelling class `cls`; `resolver(i, cls)` may
+    override what is written for item i (used to write the alias the MODEL resolves that spelling to)"""
     side, slot, k = pl["side"], pl["slot"], pl["k"]
     items, _ = built["arrays"][side]
-    ref = lambda i: spell(items, i, cls)  # noqa
+    ref = (lambda i: spell(items, i, cls)) if resolver is None else (lambda i: resolver(i, cls))  # noqa
     t = {}
     dimt = {}
     if slot in ("hide", "mixed"):
@@ -294,7 +306,7 @@ def evaluate(case, louts, ctx):
     ctx.count("api-slot:%s" % slot)
     tout, sout = louts
     if not tout["nocollision"]:
-        raise common.HarnessFault("api case generated a colliding dimension: %r" % (items,))
+        return evaluate_colliding(case, built, pl, tout, ctx)
     # spec: every spelling of item i denotes item i
     specs = tout["spec"]
     for j, s in enumerate(specs):
@@ -349,6 +361,50 @@ def evaluate(case, louts, ctx):
                 findings.append(F("spec", "api.%s.unmatched-changes" % where, "%s: adding unmatched references changes output at %s; %s" %
                                   (desc, path, json.dumps(t))))
     key = (case["layout"], n, case["idpat"], sslot, side, k, bool(case.get("stale"))) if effect else None
+    return findings, key
+
+
+def evaluate_colliding(case, built, pl, tout, ctx):
+    """dimensions with colliding spellings (real MR-insertion payloads: decimal sub-variable ids shifted against the
+    renumbered element ids): the statement leaves the colliding strings open, so the reference is the MODEL: writing a
+    reference in any spelling must give the output of writing the alias the Lean cascade resolves it to."""
+    side, slot, k = pl["side"], pl["slot"], pl["k"]
+    items, mr_ins = built["arrays"][side]
+    n = len(items)
+    sslot = slot + ("-insertion" if pl["insertion"] else "")
+    where = "%s.%s" % (sslot, "rows" if side == "rows_dimension" else "columns")
+    desc = "layout=%s n=%d idpat=%s items=%s mr_ins=%s slot=%s item=%d side=%s" % (
+        case["layout"], n, case["idpat"], json.dumps([(it["id"], it["alias"], it["subvar_id"], it["anchor"], it["derived"]) for it in items]),
+        mr_ins, sslot, k, side)
+    ctx.count("api-colliding:%s" % case["layout"])
+    model = {}
+    for i in range(n):
+        for j, c in enumerate(SPELLS):
+            model[(i, c)] = tout["model"][i * len(SPELLS) + j]
+    findings = []
+    base = observe(copy.deepcopy(built["resp"]), {})
+    r = raised(base)
+    if r:
+        return [F("spec", "api.baseline-raises", "%s: the cube WITHOUT transforms fails: %s" % (desc, r))], None
+    effect = False
+    for cls in SPELLS:
+        t = transforms_for(case, built, pl, cls, False)
+        tm = transforms_for(case, built, pl, cls, False,
+                            resolver=lambda i, c: model[(i, c)] if model[(i, c)] is not None else "zz-unmatched")
+        if t == tm:
+            continue
+        o, om = observe(copy.deepcopy(built["resp"]), copy.deepcopy(t)), observe(copy.deepcopy(built["resp"]), copy.deepcopy(tm))
+        rr = raised(o)
+        if rr:
+            findings.append(F("spec", "api.%s.raises" % where, "%s spelling=%s transforms=%s: %s" % (desc, cls, json.dumps(t), rr)))
+            continue
+        effect = effect or not common.deep_close(om, base)[0]
+        ok, path = common.deep_close(o, om)
+        if not ok:
+            findings.append(F("model", "api.%s.model-resolution" % where,
+                              "%s: transforms %s give a different output (at %s) than %s, in which every reference is "
+                              "replaced by the alias the modelled cascade resolves it to" % (desc, json.dumps(t), path, json.dumps(tm))))
+    key = ("colliding", case["layout"], n, case["idpat"], sslot, side, k) if effect else None
     return findings, key
 
 
